@@ -41,29 +41,95 @@ func points(n int, seed int64, salt string) []int {
 	return out
 }
 
-// plans enumerates the fault plans of a unit: every write-call index of the
-// fault-free run (dead from there on / failing once) and every byte capacity
-// below the size of the fault-free output (sticky / failing once).
+// plans enumerates the fault plans of a unit, for the writer without and the
+// writer with a WriteString method: every write-call index of the fault-free
+// run (dead from there on / failing once) and every byte capacity below the
+// size of the fault-free output (sticky / failing once). For the families
+// other than "long" the WriteString flavour gets dead, once and cap only.
 func (u *Unit) plans(seed int64) []Plan {
 	var ps []Plan
-	for _, k := range points(len(u.writes), seed, u.ID+"#w") {
-		ps = append(ps, Plan{"dead", k}, Plan{"once", k})
-	}
-	for _, b := range points(len(u.ffOut), seed, u.ID+"#b") {
-		ps = append(ps, Plan{"cap", b}, Plan{"caponce", b})
+	for _, sw := range []bool{false, true} {
+		for _, k := range points(len(u.writesOf(sw)), seed, u.ID+"#w") {
+			ps = append(ps, Plan{Kind: "dead", K: k, SW: sw}, Plan{Kind: "once", K: k, SW: sw})
+		}
+		var caps []int
+		if u.long {
+			caps = u.longCaps(sw, seed)
+		} else {
+			caps = points(len(u.ffOut), seed, u.ID+"#b")
+		}
+		for _, b := range caps {
+			ps = append(ps, Plan{Kind: "cap", K: b, SW: sw})
+			if !sw || u.long {
+				ps = append(ps, Plan{Kind: "caponce", K: b, SW: sw})
+			}
+		}
 	}
 	return ps
 }
 
+// longCaps chooses the byte capacities for a template with a very long write:
+// both ends, the bytes around every write-call boundary of the fault-free run,
+// the bytes around every multiple of 4096 inside a long write and around the
+// first multiple of other likely buffer sizes, and a seeded sample of the rest.
+func (u *Unit) longCaps(sw bool, seed int64) []int {
+	n := len(u.ffOut)
+	set := map[int]bool{}
+	add := func(b int) {
+		for d := -2; d <= 2; d++ {
+			if b+d >= 0 && b+d < n {
+				set[b+d] = true
+			}
+		}
+	}
+	add(0)
+	add(n - 1)
+	for _, w := range u.writesOf(sw) {
+		add(w.Off)
+		if w.Len <= 512 {
+			continue
+		}
+		for o := 4096; o < w.Len; o += 4096 {
+			add(w.Off + o)
+		}
+		for _, c := range []int{512, 1024, 2048, 8192, 16384, 32768, 65536} {
+			if c < w.Len {
+				add(w.Off + c)
+			}
+		}
+	}
+	h := fnv.New64a()
+	h.Write([]byte(u.ID))
+	rng := rand.New(rand.NewSource(seed ^ int64(h.Sum64())))
+	for i := 0; i < 48 && n > 0; i++ {
+		set[rng.Intn(n)] = true
+	}
+	var r []int
+	for b := range set {
+		r = append(r, b)
+	}
+	sort.Ints(r)
+	if len(r) > MaxPoints {
+		// keep the budget: thin out evenly (only with thousands of write calls)
+		var t []int
+		for i := 0; i < MaxPoints; i++ {
+			t = append(t, r[i*len(r)/MaxPoints])
+		}
+		r = t
+	}
+	return r
+}
+
 // siteAt names the write site of the fault-free run's call idx.
-func (u *Unit) siteAt(idx int) string {
+func (u *Unit) siteAt(sw bool, idx int) string {
+	ws := u.writesOf(sw)
 	if idx < 0 {
 		return "no-failed-write"
 	}
-	if idx >= len(u.writes) {
+	if idx >= len(ws) {
 		return "beyond-fault-free-run"
 	}
-	return u.writes[idx].Site
+	return ws[idx].Site
 }
 
 // Outcome is one faulted render.
@@ -80,8 +146,10 @@ type Outcome struct {
 	Feature    string // "" = the property holds for this run
 	What       string
 	ErrDropped bool
-	NeedsFF    bool // the verdict depends on the fault-free output
-	CountOnly  bool // replay material dropped (more than 3 of this feature in the unit)
+	NeedsFF    bool   // the verdict depends on the fault-free output
+	Healthy    bool   // this is a render into an unfailing writer (no plan)
+	History    []Plan // the plans run on this template just before (oldest first)
+	CountOnly  bool   // replay material dropped (more than 3 of this feature in the unit)
 }
 
 // run performs one faulted render and judges it against the property:
@@ -93,10 +161,16 @@ type Outcome struct {
 // Write segmentation is never compared.
 func (u *Unit) run(p Plan) *Outcome {
 	w := newFaultWriter(p, len(u.ffOut))
-	err, pan := u.render(w)
+	var err error
+	var pan bool
+	if p.SW {
+		err, pan = u.render(swFault{w})
+	} else {
+		err, pan = u.render(w)
+	}
 	o := &Outcome{Plan: p, Err: err, Panicked: pan, Accepted: w.accepted, Calls: w.calls,
 		FirstBad: w.firstBad, AfterBad: w.afterBad}
-	o.Site = u.siteAt(w.firstBad)
+	o.Site = u.siteAt(p.SW, w.firstBad)
 	failed := w.firstBad >= 0
 	// (2) is judged on the bytes accepted until the writer failed: for the
 	// sticky writers (dead, cap) that is everything they ever accept; what a
@@ -118,12 +192,15 @@ func (u *Unit) run(p Plan) *Outcome {
 		o.Feature = o.Site + "-write-error-dropped"
 		o.What = fmt.Sprintf("write call %d (%s) failed but the render returned nil", w.firstBad, o.Site)
 	case !isPrefix:
+		// named after the site that wrote the first wrong byte: the write call
+		// of the fault-free run that covers the offset where the bytes diverge
 		o.NeedsFF = true
-		o.Feature = o.Site + "-accepted-not-prefix"
-		if !failed {
-			o.Feature = "accepted-not-prefix"
+		d := 0
+		for d < len(before) && d < len(u.ffOut) && before[d] == u.ffOut[d] {
+			d++
 		}
-		o.What = "accepted bytes are not a prefix of the fault-free output"
+		o.Feature = u.siteAt(p.SW, u.callAt(p.SW, d)) + "-accepted-not-prefix"
+		o.What = fmt.Sprintf("accepted bytes are not a prefix of the fault-free output (they diverge at byte %d)", d)
 	case err == nil && !bytes.Equal(w.accepted, u.ffOut):
 		o.NeedsFF = true
 		o.Feature = "nil-but-incomplete"
@@ -175,17 +252,23 @@ type ReplayCase struct {
 		CallsAfterBad int    `json:"callsAfterFailure"`
 		UntilFailure  int    `json:"bytesAcceptedUntilFailure"`
 	} `json:"observed"`
-	Expected string        `json:"expected"`
-	Prog     *core.Program `json:"prog,omitempty"`
+	Expected string `json:"expected"`
+	// History: plans run on the same compiled template immediately before
+	// (the observation may depend on what those failed renders left behind).
+	// HealthyRender: the observed render used an unfailing writer (no plan).
+	History       []Plan        `json:"history,omitempty"`
+	HealthyRender bool          `json:"healthyRender,omitempty"`
+	Prog          *core.Program `json:"prog,omitempty"`
 }
 
-const planDoc = "dead k: every Write from call k on returns (0, err); once k: only call k does; cap b: b bytes are accepted in total, the Write crossing b returns (short, err), later non-empty Writes (0, err); caponce b: as cap but the writer recovers after the short write"
+const planDoc = "sw: the writer also has a WriteString method; dead k: every Write from call k on returns (0, err); once k: only call k does; cap b: b bytes are accepted in total, the Write crossing b returns (short, err), later non-empty Writes (0, err); caponce b: as cap but the writer recovers after the short write"
 
 func (u *Unit) replay(o *Outcome) *ReplayCase {
-	rc := &ReplayCase{Unit: u.UnitSpec, Plan: o.Plan, PlanDoc: planDoc, Site: o.Site, Prog: u.Prog}
+	rc := &ReplayCase{Unit: u.UnitSpec, Plan: o.Plan, PlanDoc: planDoc, Site: o.Site, Prog: u.Prog,
+		History: o.History, HealthyRender: o.Healthy}
 	rc.FaultFree.Out = mkText(u.ffOut)
 	rc.FaultFree.Err = errText(u.ffErr)
-	rc.FaultFree.Writes = len(u.writes)
+	rc.FaultFree.Writes = len(u.writesOf(o.Plan.SW))
 	rc.Observed.Accepted = mkText(o.Accepted)
 	rc.Observed.Err = errText(o.Err)
 	rc.Observed.ErrIsNil = o.Err == nil
@@ -216,24 +299,21 @@ type unitResult struct {
 	bySite     map[string]int // fault points by site kind of the injected fault
 	byKind     map[string]int
 	violations []*Outcome // all violating outcomes (Accepted dropped beyond keep)
-	unstable   bool
+	healthy    int        // renders into a healthy writer interleaved with the faulted ones
 	obs        []capObs
 }
 
 // enumerate runs every fault plan of the unit (sequentially: one goroutine
 // per unit, no compiled bundle is shared between goroutines).
+//
+// The reference is the fault-free output measured before any fault was
+// injected in this process (Unit.faultFree, reproducible there). A render
+// whose result differs from it later on - a faulted one whose accepted bytes
+// are not a prefix, or one into a healthy writer (checked at the start, every
+// 16 plans and at the end) - differs because of the failed writes that came
+// before it, and is reported; the replay case carries the plans that preceded.
 func (u *Unit) enumerate(seed int64, reached func(Plan)) *unitResult {
 	res := &unitResult{bySite: map[string]int{}, byKind: map[string]int{}}
-	// the fault-free output must be reproducible, otherwise there is nothing
-	// to compare with
-	{
-		w := &recWriter{}
-		err, _ := u.render(w)
-		if !bytes.Equal(w.out, u.ffOut) || (err == nil) != (u.ffErr == nil) || len(w.writes) != len(u.writes) {
-			res.unstable = true
-			return res
-		}
-	}
 	var m3pts map[int]bool
 	if u.M3 && u.Prog != nil {
 		m3pts = map[int]bool{}
@@ -248,7 +328,28 @@ func (u *Unit) enumerate(seed int64, reached func(Plan)) *unitResult {
 		}
 	}
 	kept := map[string]int{}
-	for _, p := range u.plans(seed) {
+	keep := func(o *Outcome) {
+		kept[o.Feature]++
+		if kept[o.Feature] > 3 {
+			o.Accepted, o.History, o.CountOnly = nil, nil, true
+		}
+		res.violations = append(res.violations, o)
+	}
+	var hist []Plan
+	healthyCheck := func() {
+		ok, out, err := u.healthy()
+		res.healthy++
+		if ok {
+			return
+		}
+		o := &Outcome{Healthy: true, Err: err, Accepted: out, FirstBad: -1, Site: "n/a", NeedsFF: true,
+			Feature: "healthy-render-differs-after-failed-writes",
+			What:    "a render into an unfailing writer no longer produces the fault-free output after renders whose writer failed",
+			History: append([]Plan{}, hist...)}
+		keep(o)
+	}
+	healthyCheck()
+	for i, p := range u.plans(seed) {
 		o := u.run(p)
 		res.renders++
 		res.byKind[p.Kind]++
@@ -261,33 +362,38 @@ func (u *Unit) enumerate(seed int64, reached func(Plan)) *unitResult {
 		} else {
 			res.notReached++
 		}
-		if p.Kind == "cap" && m3pts[p.K] {
+		if p.Kind == "cap" && !p.SW && m3pts[p.K] {
 			res.obs = append(res.obs, capObs{B: p.K, Err: o.Err != nil, Acc: string(o.Accepted),
-				M2Bad: o.Feature != "", Feature: o.Feature, Site: u.siteAt(u.callAtOffset(p.K))})
+				M2Bad: o.Feature != "", Feature: o.Feature, Site: u.siteAt(false, u.callAtOffset(p.K))})
 		}
 		if o.Feature != "" {
-			kept[o.Feature]++
-			if kept[o.Feature] > 3 {
-				o.Accepted, o.CountOnly = nil, true
+			if o.NeedsFF {
+				o.History = append([]Plan{}, hist...)
 			}
-			res.violations = append(res.violations, o)
+			keep(o)
+		}
+		hist = append(hist, p)
+		if len(hist) > 8 {
+			hist = hist[1:]
+		}
+		if i%16 == 15 {
+			healthyCheck()
 		}
 	}
-	// a verdict that rests on the fault-free output needs that output to be
-	// stable: render fault-free once more
-	for _, o := range res.violations {
-		if !o.NeedsFF {
-			continue
-		}
-		w := &recWriter{}
-		u.render(w)
-		if !bytes.Equal(w.out, u.ffOut) {
-			res.unstable = true
-			res.violations = nil
-		}
-		break
-	}
+	healthyCheck()
 	return res
+}
+
+// callAt is callAtOffset for either writer flavour; past the end it names
+// the last call.
+func (u *Unit) callAt(sw bool, b int) int {
+	ws := u.writesOf(sw)
+	for i, w := range ws {
+		if w.Off+w.Len > b {
+			return i
+		}
+	}
+	return len(ws) - 1
 }
 
 // callAtOffset returns the index of the fault-free write call during which a
